@@ -118,16 +118,27 @@ def explore(chk):
                 bad = "Scenarist_SCC V1.0\n\n00:00:01:00\t94ae 9420 9440 " + " ".join(["c1c2"] * 17) + " 942f\n\n00:00:04:00\t942c\n"
                 docs.append(("scc", bad))
                 ops += [("read", len(docs) - 1, True), ("read", len(docs) - 3, True)]
-        histories.append((docs, ops))
+        # constructor options of the reader objects of this history (one object per format when reused)
+        init = {}
+        if rng.random() < 0.4 or h % 5 == 3:
+            init["webvtt"] = rng.choice([{"ignore_timing_errors": False}, {"ignore_timing_errors": False}, {"time_shift_milliseconds": 500}])
+        if h % 5 == 3:
+            # a WebVTT document that begins late, then one that begins early, on one reader object that checks cue order
+            def vtt(t0, word):
+                return "WEBVTT\n\n00:00:%02d.000 --> 00:00:%02d.500\n%s one\n\n00:00:%02d.000 --> 00:00:%02d.000\n%s two\n" % (t0, t0 + 1, word, t0 + 2, t0 + 3, word)
+            late, early = rng.choice([20, 31, 40]), rng.choice([0, 1, 5])
+            docs += [("webvtt", vtt(late, "late")), ("webvtt", vtt(early, "early"))]
+            ops += [("read", len(docs) - 2, True), ("read", len(docs) - 1, True), ("read", len(docs) - 2, True)]
+        histories.append((docs, ops, init))
         for o in ops:
             if o[0] == "read":
                 kw = {"offset": rng.choice([0, 0, 1, 2])} if docs[o[1]][0] == "scc" else {}
                 o_kw.append(kw)
-                jobs.append({"op": "read", "kind": docs[o[1]][0], "doc": docs[o[1]][1], "kwargs": kw})
+                jobs.append({"op": "read", "kind": docs[o[1]][0], "doc": docs[o[1]][1], "kwargs": kw, "init": init.get(docs[o[1]][0], {})})
     seeds = [0, 1, rng.randrange(2, 10 ** 6)]
     pr = [pristine(jobs, s) for s in seeds]
     ji = 0
-    for (docs, ops) in histories:
+    for (docs, ops, init) in histories:
         readers = {}
         results = []          # (doc index, CaptionSet, snapshot repr at creation)
         trace = []
@@ -136,16 +147,16 @@ def explore(chk):
                 _, di, reuse = o
                 fmt, doc = docs[di]
                 if reuse:
-                    rd = readers.setdefault(fmt, setbuild.make_reader(fmt))
+                    rd = readers.setdefault(fmt, setbuild.make_reader(fmt, **init.get(fmt, {})))
                     reused = getattr(rd, "_pcv_used", False); rd._pcv_used = True
                 else:
-                    rd = setbuild.make_reader(fmt); reused = False
+                    rd = setbuild.make_reader(fmt, **init.get(fmt, {})); reused = False
                 try:
                     cs = rd.read(doc, **o_kw[ji])
                     res = ("ok", repr(setbuild.snapshot(cs)))
                 except Exception as e:
                     cs = None; res = ("err", type(e).__name__)
-                trace.append({"op": "read", "format": fmt, "doc": di, "reader": "reused" if reused else "fresh"})
+                trace.append({"op": "read", "format": fmt, "doc": di, "reader": "reused" if reused else "fresh", "reader_options": init.get(fmt, {})})
                 case = {"documents": [d[1] for d in docs], "formats": [d[0] for d in docs], "history": trace[:]}
                 chk.case(key=json.dumps(case, sort_keys=True), nontrivial=reused or any(t["op"] == "edit" for t in trace),
                          sample={"history": trace[:], "formats": [d[0] for d in docs]} if chk.count_get("reads") in (3, 40) else None)
